@@ -186,6 +186,24 @@ func execC10Bubble(r *kernel.Run, s C10Spec) {
 			}
 		} else {
 			r.Probe("verify-rejected")
+			// the same rejected message object offered again (retry): it must stay rejected, by
+			// Update.Verify and by a witness, and must not have been changed by the rejection
+			var verr2, uerr2 error
+			wr := freshWitness()
+			beforeR := witSnap(wr)
+			if p, fr := guardFrame(func() { _, verr2 = u.Verify(pk); uerr2 = wr.Update(pk, u) }); p != "" {
+				r.Violate("C10:panic:re-offer:"+fr, det, "%s: re-offering the rejected update panics: %s", id, p)
+				return
+			}
+			if verr2 == nil && authentic(u) != "" {
+				r.Violate("C10:rejected-update-accepted-when-offered-again", det, "%s: Update.Verify rejected the message (%v) and accepts the same object on the second offer: %s", id, verr, authentic(u))
+			}
+			if uerr2 == nil && witSnap(wr) != beforeR {
+				acc := wr.SignedAccumulator.Accumulator
+				if acc == nil || acc.Index > uint64(ra.Head()) || ra.Accs[acc.Index].Nu.Cmp(acc.Nu) != 0 {
+					r.Violate("C10:rejected-update-accepted-when-offered-again", det, "%s: a witness accepted the previously rejected message object and moved to an unauthentic accumulator", id)
+				}
+			}
 		}
 		// (2) Witness.Update on a fresh decode (verification caches inside the object)
 		u2, _ := mk()
